@@ -862,13 +862,21 @@ def run_axi_remapper(name):
 _cfg9, _run9, _replay9 = configs, run_config, replay
 
 
+# the burst walker inside AXI2AXILite / AXI2Wishbone: the bridge configurations use buses up to 64 bit and short bursts, the walker's own INCR
+# enumeration (C10's harness: every legal burst of that size, incl. 4 KiB bursts on buses of 128 bit and more) runs here too
+WALKER = ("AXIBurst2Beat[INCR,size=2,bus=32/64bit]", "AXIBurst2Beat[INCR,size=4,bus=128bit]")
+
+
 def configs(tier):
-    return _cfg9(tier) + [(n,) for n in AXIREMAP]
+    return _cfg9(tier) + [(n,) for n in AXIREMAP] + [(n,) for n in WALKER]
 
 
 def run_config(cfg, seed, tier):
     if cfg[0] in AXIREMAP:
         return run_axi_remapper(cfg[0])
+    if cfg[0] in WALKER:
+        from checks import c10_axi_burst
+        return c10_axi_burst.run_config(cfg, seed, tier)
     return _run9(cfg, seed, tier)
 
 
@@ -876,4 +884,7 @@ def replay(rec):
     if rec["cfg"] in AXIREMAP:
         r = run_axi_remapper(rec["cfg"])
         return dict(cfg=rec["cfg"], rule=rec["rule"], reproduced=bool(r["violations"]))
+    if rec["cfg"] in WALKER:
+        from checks import c10_axi_burst
+        return c10_axi_burst.replay(rec)
     return _replay9(rec)
